@@ -77,6 +77,13 @@ TStage == /\ Ev.op = "stage"
           /\ Same(st', Ev)
           /\ Quiet
 
+(* `wrgl reapply TX`: Txn!Reapply, refused (nothing changes) unless the transaction is committed *)
+TReapply == /\ Ev.op = "reapply"
+            /\ st' = Reapply(st, Ev.tx)
+            /\ Ev.res = (IF ReapplyOk(st, Ev.tx) THEN "ok" ELSE "err")
+            /\ Same(st', Ev)
+            /\ Quiet
+
 IsRun == Ev.op \in {"txcommit", "txdiscard"}
 RunOp == [kind |-> IF Ev.op = "txcommit" THEN "commit" ELSE "discard",
           tx |-> Ev.tx, k |-> IF Ev.fired THEN Ev.k ELSE 0, how |-> Ev.how]
@@ -102,7 +109,7 @@ TRunDev == /\ IsRun
 TInit == st = EmptyState /\ run = NoRun /\ budget = [faults |-> 0, plain |-> 0] /\ l = 1
 TNext == /\ l <= Len(TLog)
          /\ l' = l + 1
-         /\ (TReset \/ TPlain \/ TStart \/ TStage \/ TRun \/ TRunDev)
+         /\ (TReset \/ TPlain \/ TStart \/ TStage \/ TReapply \/ TRun \/ TRunDev)
 TSpec == TInit /\ [][TNext]_tvars
 
 Constr == Mark(l)
